@@ -186,22 +186,44 @@ example : nf_furcation_nodes (Sub.rangeI 5) exP = some [true, true, false, false
           nf_subset_radial_distance nfSqR (Sub.rangeI 5) exP [1, 3, 3, 3, 3] exXYZR [false, false, true, true, true] = some [50, 100, 4] := by
   decide +kernel
 
-/-- **`BranchFeatures.calc_angle` as translated**: entry (i, j) = `acos (clip (v_i · v_j / (‖v_i‖·‖v_j‖ + eps), −1, 1))` where `v_b` is the vector
-from the FIRST node of branch `b` to its LAST node (`br[-1].xyz() − br[0].xyz()`), `eps` is added to the divisor (not to the norms) and the
-product of the norms is the 1×1 matrix product the source forms; a zero divisor raises (numpy would give inf / nan) -/
+/-- **`BranchFeatures.calc_angle` as translated**: entry (i, j) = `acos (clip (v_i · v_j / (‖v_i‖·‖v_j‖), −1, 1))` where `v_b` is the vector
+from the FIRST node of branch `b` to its LAST node (`br[-1].xyz() − br[0].xyz()`) and the product of the norms is the 1×1 matrix product
+the source forms.  The DEGENERATE case is explicit: where that product is 0 (a branch of length zero; `angDeg`) the divisor is 1
+(`angDen = if angDeg then 1 else angNd`).  No `eps` is added to the divisor (the parameter is still accepted and is ignored), so nothing
+absolute enters the quotient; nothing raises. -/
 theorem generated_calc_angle {K : Type} [Inhabited K] [Add K] [Sub K] [Mul K] [OfNat K 0] [OfNat K 1] [LT K] [DecidableLT K] [LE K] [DecidableLE K]
     (F : Py.Fld K) (norm : List K → K) (acos : K → K) (axyz : List (List K)) (d : Nat) (brs : List (List Int)) (eps : K)
-    (hg : ∀ b ∈ brs, GoodBr axyz d b)
-    (hne : ∀ bi ∈ brs, ∀ bj ∈ brs, angDen norm axyz eps bi bj < 0 ∨ 0 < angDen norm axyz eps bi bj) :
+    (h01 : (0 : K) < 1) (hg : ∀ b ∈ brs, GoodBr axyz d b) :
     nf_calc_angle F norm acos axyz brs eps
       = some (brs.map fun bi => brs.map fun bj =>
-          acos (clip1 (F.div (RefineNf2.dotK (bvec axyz bi) (bvec axyz bj)) (angDen norm axyz eps bi bj)))) :=
-  calc_angle_refines F norm acos axyz d brs eps hg hne
+          acos (clip1 (F.div (RefineNf2.dotK (bvec axyz bi) (bvec axyz bj))
+            (if angNd norm axyz bi bj < 0 ∨ 0 < angNd norm axyz bi bj then angNd norm axyz bi bj else 1)))) := by
+  rw [calc_angle_refines F norm acos axyz d brs eps h01 hg]
+  congr 1
+  apply List.map_congr_left; intro bi _
+  apply List.map_congr_left; intro bj _
+  unfold angDen angDeg
+  by_cases h1 : angNd norm axyz bi bj < 0
+  · simp [h1]
+  · by_cases h2 : 0 < angNd norm axyz bi bj <;> simp [h1, h2]
 
-/-- non-vacuity (kernel-evaluated; `norm` = Σv², `acos` = id, eps = 1): branches `[0,1]` (vector (3,4,0)) and `[1,3,4]` (vector (−3,−4,2)):
-the off-diagonal quotient −25 / (25·29 + 1) stays, the diagonal ones 25 / 626 and 29 / 842 too; with `eps = 0` and a zero vector it raises -/
+/-- **the degenerate entries of the generated `calc_angle` are `acos 0`** (π/2, what the code returned for a zero-length branch before the
+repair too): over an ordered field with true division, whenever the product of the two norms is 0 and the dot product of the two branch
+vectors is 0 (both hold for the Euclidean norm when one of the two branches has length zero), entry (i, j) is `acos 0`. -/
+theorem generated_calc_angle_degenerate {K : Type} [Field K] [LinearOrder K] [IsStrictOrderedRing K] [Inhabited K]
+    (F : Py.Fld K) (hF : ∀ a b : K, F.div a b = a / b) (norm : List K → K) (acos : K → K) (axyz : List (List K)) (d : Nat)
+    (brs : List (List Int)) (eps : K) (hg : ∀ b ∈ brs, GoodBr axyz d b) (i j : Nat) (hi : i < brs.length) (hj : j < brs.length)
+    (hz : angNd norm axyz brs[i] brs[j] = 0) (hdot : RefineNf2.dotK (bvec axyz brs[i]) (bvec axyz brs[j]) = 0) :
+    ∃ M, nf_calc_angle F norm acos axyz brs eps = some M ∧ (M[i]?.bind fun r => r[j]?) = some (acos 0) := by
+  refine ⟨_, generated_calc_angle F norm acos axyz d brs eps one_pos hg, ?_⟩
+  have h10 : ¬ (1 : K) < 0 := not_lt.mpr zero_le_one
+  simp [hi, hj, hz, hdot, hF, clip1, h10]
+
+/-- non-vacuity (kernel-evaluated; `norm` = Σv², `acos` = id): branches `[0,1]` (vector (3,4,0)) and `[1,3,4]` (vector (−3,−4,2)):
+the off-diagonal quotient −25 / (25·29), the diagonal ones 25 / 625 and 29 / 841, whatever `eps` is handed in; with a zero vector (branch
+`[2,2]`) the entries of its row and column are 0 / 1 = 0 and nothing raises -/
 example : nf_calc_angle Py.ratFld nfSqR id exXYZR [[0, 1], [1, 3, 4]] 1
-            = some [[25 / 626, -25 / 726], [-25 / 726, 29 / 842]] ∧
-          nf_calc_angle Py.ratFld nfSqR id exXYZR [[0, 1], [2, 2]] 0 = none := by decide +kernel
+            = some [[25 / 625, -25 / 725], [-25 / 725, 29 / 841]] ∧
+          nf_calc_angle Py.ratFld nfSqR id exXYZR [[0, 1], [2, 2]] 0 = some [[25 / 625, 0], [0, 0]] := by decide +kernel
 
 end C10
